@@ -407,7 +407,7 @@ def gen_case(ch: Chooser, excl=()):
             "n_orders": 1, "order_seed": 0}
 
 
-def gen_model(ch: Chooser, excl=(), assoc_from_unused_procs=False):
+def gen_model(ch: Chooser, excl=(), assoc_from_unused_procs=False, assoc_pool=None):
     feats = set()
     # module `lib` with procedures (and host data), used by a second module and a program
     lib = {"k": "module", "name": "lib", "uses": [], "default_access": None, "access_pos": "early", "decls": [],
@@ -462,7 +462,9 @@ def gen_model(ch: Chooser, excl=(), assoc_from_unused_procs=False):
     if ch.bool(1, 2):
         syms.ext_subs = [ch.choice(["ext_solver", "legacy_io", "callext"])]
         feats.add("external-subroutine")
-    if assoc_from_unused_procs:
+    if assoc_pool:
+        syms.assoc_pool = list(assoc_pool)
+    elif assoc_from_unused_procs:
         # associate names that are procedure names *elsewhere* (not accessible here)
         syms.assoc_pool = [n for n in SUB_NAMES + FUN_NAMES if n not in syms.subs and n not in syms.funs
                            and n not in syms.gens][:6]
